@@ -39,6 +39,7 @@ func (Prop) Rule() string {
 		"the buffer mode of an operation rotates with (depth + operation index) mod 3 over {disjoint dst, in place, dst longer than src (tail must stay untouched)}, buffers end at a guard page; " +
 		"states are merged only on an identical SHA-256 of the reflect/unsafe dump of the whole cipher object " +
 		"(LFSR/FSM, partial-round buffer incl. stale bytes, position, checkpoint list, stateIndex, bucket size) + model position. " +
+		"Long histories: engine.Deviations with default XORKeyStream(1) resp. XORKeyStream(129) to horizon 8 with <= 1 (thorough 2) departures over the 54 operations; thorough also Write(16) x 8 with <= 2 departures on the MACs. " +
 		"E2 stream: every length 0..N followed by a second call and a backward seek, and every offset 0..N on a fresh object followed by a sequential call and a backward seek, in all three buffer modes, N=600 (thorough 1300), bucket sizes 0/128/256 and both constructors, plus the EEA3 constructors for all bearers/directions. " +
 		"MAC E2: every bit length 0..640 (thorough 0..2100) through Finish(p,nbits) on a fresh and on a reused object, bits after nbits set to 1 resp. 0, p ending at a guard page, " +
 		"for 128-EIA3 and ZUC-256 MAC with 4/8/16-byte tags x 2 keys x 3 message patterns; every 2-partition of every byte length 0..80 (thorough 0..200) through Write/Write/Sum. " +
@@ -637,6 +638,26 @@ func (Prop) Run(c *engine.Ctx) {
 		}
 	}
 
+	// ---- E1 stream, long histories: a default operation repeated to the horizon with <= b departures
+	// (any of the 54 operations at any position)
+	devBound := 1
+	if !quick {
+		devBound = 2
+	}
+	for _, v := range variants {
+		for _, bucket := range buckets {
+			for _, def := range []int{0, 4} { // XORKeyStream(1), XORKeyStream(129)
+				v, bucket, def := v, bucket, def
+				_, names := alphabet(quickLens, quickOffs)
+				c.Case(fmt.Sprintf("stream/deviations/%s/bucket=%d/def=%s/h=8/b=%d", v.name, bucket, names[def], devBound), func(t *engine.T) {
+					b := newBufs()
+					defer b.free()
+					engine.Deviations(t, streamMachine(b, v, bucket, quickLens, quickOffs), def, 8, devBound)
+				})
+			}
+		}
+	}
+
 	// ---- E2 stream: every length / every offset on a fresh object
 	nMax := 600
 	if !quick {
@@ -827,6 +848,19 @@ func (Prop) Run(c *engine.Ctx) {
 			defer b.free()
 			engine.BFS(t, macMachine(col, b, mvi), depth)
 		})
+	}
+
+	if !quick {
+		for mvi, mv := range macVariants {
+			mvi, mv := mvi, mv
+			c.Case(fmt.Sprintf("mac/deviations/%s/def=Write(16)/h=8/b=2", mv.name), func(t *engine.T) {
+				col := newCollector()
+				defer col.flush(t)
+				b := newBufs()
+				defer b.free()
+				engine.Deviations(t, macMachine(col, b, mvi), 7, 8, 2) // macChunks[7] == 16
+			})
+		}
 	}
 
 	// ---- EIA3 constructor builds the IV the standard defines
